@@ -310,7 +310,7 @@ package main
 //@ end
 
 //@ func loadPkgCache
-//@   property C07
+//@   property C07 C03
 //@   hooks cachemiss
 //@   requires !computeCalled && !anyErr && !lastGetErr
 //@   ensures @miss-recomputes: lastGetErr ==> computeCalled
@@ -318,7 +318,7 @@ package main
 //@ end
 
 //@ func computePkgCache
-//@   property C07
+//@   property C07 C03
 //@   hooks cachemiss parse
 //@   skip safety
 //@ end
